@@ -56,91 +56,30 @@ theorem held_equals_last_successful : ∀ (ops : List HOp) (s : HState),
     · simp only [hn, Bool.false_eq_true, if_false, Bool.not_false, if_true, List.getLast?_cons]
       cases (os.filter fun o => !o.faults.noReload).getLast? <;> rfl
 
-/-- a batch whose failure is all-or-nothing under NGINX Plus: no per-upstream API error, and `GetUpstreams` does
-not fail after NGINX has already been reloaded -/
-def HOp.allOrNothing (o : HOp) : Bool :=
-  o.faults.http.isEmpty && o.faults.stream.isEmpty &&
-    (decide (o.kind = .endpoints) || o.faults.noReload || !o.faults.get)
-
-def HOp.failsWhole (o : HOp) : Bool :=
-  match o.kind with
-  | .cluster => o.faults.noReload || o.faults.get
-  | .endpoints => o.faults.get
-
-theorem applyOp_plus_failsWhole {o : HOp} (h : o.allOrNothing = true) (hf : o.failsWhole = true) (x : Ngx) :
-    applyOp true o x = (x, true) := by
-  simp only [HOp.allOrNothing, Bool.and_eq_true, List.isEmpty_iff, Bool.or_eq_true, decide_eq_true_eq,
-    Bool.not_eq_true'] at h
-  obtain ⟨_, hk⟩ := h
-  cases hkind : o.kind with
-  | cluster =>
-    rw [applyOp_plus_cluster hkind]
-    simp only [HOp.failsWhole, hkind, Bool.or_eq_true] at hf
-    have : o.faults.noReload = true := by
-      rcases hk with (hk | hk) | hk
-      · rw [hkind] at hk; cases hk
-      · exact hk
-      · rcases hf with hf | hf
-        · exact hf
-        · rw [hk] at hf; cases hf
-    simp [this]
-  | endpoints =>
-    rw [applyOp_plus_endpoints hkind]
-    simp only [HOp.failsWhole, hkind] at hf
-    simp [updateUpstreamServersF, hf]
-
-theorem applyOp_plus_succeeds {o : HOp} (h : o.allOrNothing = true) (hf : o.failsWhole = false) (x : Ngx) :
-    (applyOp true o x).2 = false := by
-  simp only [HOp.allOrNothing, Bool.and_eq_true, List.isEmpty_iff] at h
-  obtain ⟨⟨hh, hs⟩, _⟩ := h
-  have hupd : ∀ y, o.faults.get = false → (updateUpstreamServersF o.faults o.conf y).2 = false := by
-    intro y hg
-    simp [updateUpstreamServersF, hg, hh, hs, applyTableF_nofaults]
-  cases hkind : o.kind with
-  | cluster =>
-    simp only [HOp.failsWhole, hkind, Bool.or_eq_false_iff] at hf
-    rw [applyOp_plus_cluster hkind]
-    simp only [hf.1, Bool.false_eq_true, if_false]
-    exact hupd _ hf.2
-  | endpoints =>
-    simp only [HOp.failsWhole, hkind] at hf
-    rw [applyOp_plus_endpoints hkind]
-    exact hupd _ hf
-
-/-- **held_equals_last_successful (Plus).** When every failure is all-or-nothing, failed batches leave NO trace in
-NGINX Plus (servers and state files): it holds exactly what the batches that did not fail, in order, produce — and
-each of those recorded no error. -/
-theorem held_is_run_of_successful_plus : ∀ (ops : List HOp) (s : HState),
-    (∀ o ∈ ops, o.allOrNothing = true) →
-    (runH true s ops).ngx = (runH true s (ops.filter fun o => !o.failsWhole)).ngx ∧
-    (∀ r ∈ traceH true s (ops.filter fun o => !o.failsWhole), quiet r = true)
-  | [], _, _ => ⟨rfl, by simp [traceH]⟩
-  | o :: os, s, h => by
-    have ih := fun s' => held_is_run_of_successful_plus os s' (fun o' ho' => h o' (List.mem_cons_of_mem _ ho'))
-    have ho := h o (List.mem_cons_self ..)
-    rw [List.filter_cons]
-    by_cases hf : o.failsWhole = true
-    · have := applyOp_plus_failsWhole ho hf s.ngx
-      simp only [hf, Bool.not_true, Bool.false_eq_true, if_false, runH]
-      have hcongr : (stepH true s o).1.ngx = s.ngx := by simp [stepH, this]
-      constructor
-      · rw [(ih _).1]; exact runH_ngx_congr true _ _ _ hcongr
-      · have h2 := (ih s).2
-        exact h2
-    · have hf' : o.failsWhole = false := by simpa using hf
-      simp only [hf', Bool.not_false, if_true, runH, traceH, List.mem_cons]
-      refine ⟨(ih _).1, ?_⟩
-      rintro r (rfl | hr)
-      · simp [quiet, stepH, applyOp_plus_succeeds ho hf']
-      · exact (ih _).2 r hr
+/-- **failed_whole_batch_changes_nothing (Plus).** A batch that fails as a whole — it had to write and reload and
+ReplaceFiles or Reload failed, or it went through the API alone and `GetUpstreams` failed — leaves NGINX (servers and
+state files) exactly as it was and records the error; the handler then remembers the failure, which sends the next
+EndpointsOnlyChange through the files and a reload. -/
+theorem failed_whole_batch_changes_nothing (s : HState) (o : HOp)
+    (h : (viaReload s.lastErr o = true ∧ o.faults.noReload = true) ∨
+         (viaReload s.lastErr o = false ∧ o.faults.get = true)) :
+    (stepH true s o).1.ngx = s.ngx ∧ (stepH true s o).1.lastErr = true ∧ (stepH true s o).2 = true ∧
+    ∀ o', viaReload (stepH true s o).1.lastErr o' = true := by
+  have key : applyOp true s.lastErr o s.ngx = (s.ngx, true) := by
+    rcases h with ⟨hv, hn⟩ | ⟨hv, hg⟩
+    · exact applyOp_plus_noReload_err hv hn
+    · rw [applyOp_plus_api hv]; simp [updateUpstreamServersF, hg]
+  refine ⟨by simp [stepH, key], by simp [stepH, key], by simp [stepH, key], ?_⟩
+  intro o'; simp [stepH, key, viaReload]
 
 /-! ## 3. `every_quiet_batch_is_in_sync` -/
 
 /-- **every_quiet_batch_is_in_sync.** For ALL histories `pre` (any kinds, configurations, fault scripts) from any
 start state and every further batch `o`: if the handler records no error for `o`, then
-* OSS (either kind) and Plus/ClusterStateChange: NGINX holds, for EVERY upstream of `o`'s configuration, exactly
-  the servers of that configuration (`inSync`, the Bool the judge evaluates on the real views);
-* Plus/EndpointsOnlyChange: the same for every upstream NGINX knows at that moment.
+* OSS (either kind), Plus/ClusterStateChange, and Plus/EndpointsOnlyChange while the last apply is remembered as failed
+  (it reloads, /repo c94173a): NGINX holds, for EVERY upstream of `o`'s configuration, exactly the servers of that
+  configuration (`inSync`, the Bool the judge evaluates on the real views);
+* Plus/EndpointsOnlyChange through the API: the same for every upstream NGINX knows at that moment.
 Hence a failed application can never be followed by a quiet batch that leaves NGINX with the old servers: the
 handler has to apply again. -/
 theorem every_quiet_batch_is_in_sync (plus : Bool) (s0 : HState) (h0 : plus = true → s0.ngx.Inv)
@@ -148,17 +87,18 @@ theorem every_quiet_batch_is_in_sync (plus : Bool) (s0 : HState) (h0 : plus = tr
     (hq : quiet (stepH plus (runH plus s0 pre) o) = true) :
     let before := (runH plus s0 pre).ngx.api
     let after := (stepH plus (runH plus s0 pre) o).1.ngx.api
-    ((plus = false ∨ o.kind = .cluster) → inSync plus o.conf after = true) ∧
+    ((plus = false ∨ viaReload (runH plus s0 pre).lastErr o = true) → inSync plus o.conf after = true) ∧
     (∀ u ∈ o.conf.http, u.name ∈ before.http.keys →
       SetEq (after.http.servers u.name) (heldHttpExpected plus u)) ∧
     (∀ u ∈ o.conf.stream, u.name ∈ before.stream.keys →
       SetEq (after.stream.servers u.name) (heldStreamExpected plus u)) := by
   intro before after
-  have hq' : (applyOp plus o (runH plus s0 pre).ngx).2 = false := by simpa [quiet, stepH] using hq
+  have hq' : (applyOp plus (runH plus s0 pre).lastErr o (runH plus s0 pre).ngx).2 = false := by
+    simpa [quiet, stepH] using hq
   cases plus with
   | false =>
     have hafter : after = loadOss o.conf := by
-      show (applyOp false o (runH false s0 pre).ngx).1.api = _
+      show (applyOp false _ o (runH false s0 pre).ngx).1.api = _
       rw [applyOp_oss] at hq' ⊢
       by_cases hn : o.faults.noReload = true
       · simp [hn] at hq'
@@ -168,119 +108,126 @@ theorem every_quiet_batch_is_in_sync (plus : Bool) (s0 : HState) (h0 : plus = tr
     exact ⟨fun _ => inSync_loadOss hc, fun u hu _ => hs.1 u hu, fun u hu _ => hs.2 u hu⟩
   | true =>
     have hinv : (runH true s0 pre).ngx.Inv := inv_runH_plus pre s0 (h0 rfl)
-    have hafter : after = updateUpstreamServers o.conf (apiBeforeUpdate o (runH true s0 pre).ngx) :=
-      applyOp_plus_quiet hq'
+    have hafter : after = updateUpstreamServers o.conf
+        (apiBeforeUpdate (runH true s0 pre).lastErr o (runH true s0 pre).ngx) := applyOp_plus_quiet hq'
     rw [hafter]
-    refine ⟨?_, ?_, ?_⟩
-    · rintro (h | hk)
+    by_cases hv : viaReload (runH true s0 pre).lastErr o = true
+    · simp only [apiBeforeUpdate, hv, if_true]
+      exact ⟨fun _ => inSync_iff.mpr ⟨fun u hu => loaded_update_http hc hinv.state hu,
+          fun u hu => loaded_update_stream hc hinv.state hu⟩,
+        fun u hu _ => loaded_update_http hc hinv.state hu, fun u hu _ => loaded_update_stream hc hinv.state hu⟩
+    · have hv' : viaReload (runH true s0 pre).lastErr o = false := by simpa using hv
+      simp only [apiBeforeUpdate, hv', Bool.false_eq_true, if_false]
+      refine ⟨?_, fun u hu hk => endpoints_step_http hc hinv.api hu hk,
+        fun u hu hk => endpoints_step_stream hc hinv.api hu hk⟩
+      rintro (h | h)
       · cases h
-      · simp only [apiBeforeUpdate, hk]
-        exact inSync_iff.mpr ⟨fun u hu => loaded_update_http hc hinv.state hu,
-          fun u hu => loaded_update_stream hc hinv.state hu⟩
-    · intro u hu hk
-      cases hkind : o.kind with
-      | cluster => simp only [apiBeforeUpdate, hkind]; exact loaded_update_http hc hinv.state hu
-      | endpoints => simp only [apiBeforeUpdate, hkind]; exact endpoints_step_http hc hinv.api hu hk
-    · intro u hu hk
-      cases hkind : o.kind with
-      | cluster => simp only [apiBeforeUpdate, hkind]; exact loaded_update_stream hc hinv.state hu
-      | endpoints => simp only [apiBeforeUpdate, hkind]; exact endpoints_step_stream hc hinv.api hu hk
+      · cases h
 
-/-
-FULL-STRENGTH statement for Plus/EndpointsOnlyChange (no "NGINX knows the upstream" side condition):
-
-  theorem every_quiet_batch_is_in_sync_plus (s0) (pre) (o) (hc : o.conf.WF) (hk : o.kind = .endpoints)
-      (hq : quiet (stepH true (runH true s0 pre) o) = true) :
-      inSync true o.conf (stepH true (runH true s0 pre) o).1.ngx.api = true
-
-It is FALSE for the current code (`quiet_endpoints_batch_out_of_sync_after_failed_reload` below, known finding
-`C13:plus_quiet_after_failed_reload`; and the older `C13:plus_stream_upstream_absent`).  The `_partial` theorem
-states the excluded region as a decidable hypothesis on the history: the configuration NGINX last LOADED has the
-http upstream names of `o`, and its stream upstreams that now have endpoints had endpoints then.
--/
-
-/-- **every_quiet_batch_is_in_sync — Plus/EndpointsOnlyChange, partial.** -/
-theorem every_quiet_batch_is_in_sync_plus_partial (s0 : HState) (h0 : s0.ngx.Inv)
-    (pre : List HOp) (o : HOp) (hc : o.conf.WF) (cL : Conf)
-    (hL : lastLoaded pre none = some cL)
-    (hhttp : ∀ u ∈ o.conf.http, u.name ∈ cL.http.map (·.name))
-    (hstream : ∀ u ∈ o.conf.stream, u.eps ≠ [] → ∃ uL ∈ cL.stream, uL.name = u.name ∧ uL.eps ≠ [])
+/-- **every_quiet_batch_is_in_sync — NGINX Plus, every http upstream** (full strength since /repo c94173a). Along ANY
+history in which an EndpointsOnlyChange keeps the http upstream names of the configuration generated just before it
+(`Coherent`: what the change processor's classification means), with ANY fault scripts: a batch the handler records no
+error for leaves EVERY http upstream of its configuration with exactly that configuration's endpoints — also right after
+failed writes / reloads / API calls. For stream upstreams the only exclusion left is the one the registered finding
+`C13:plus_stream_upstream_absent` forces: a stream upstream WITH endpoints that NGINX does not know on the API path.
+(`C13:plus_empty_no_503` is about WHICH servers an empty upstream should hold — `heldHttpExpected true` = none — not
+about synchronisation.) -/
+theorem every_quiet_batch_is_in_sync_plus (s0 : HState) (h0 : s0.ngx.Inv) (hk0 : NamesKnown s0)
+    (pre : List HOp) (hpre : Coherent s0 pre) (o : HOp) (hc : o.conf.WF)
+    (ho : CoherentStep (runH true s0 pre) o)
     (hq : quiet (stepH true (runH true s0 pre) o) = true) :
-    inSync true o.conf (stepH true (runH true s0 pre) o).1.ngx.api = true := by
-  have hkeys := keys_runH_plus pre s0 none rfl
-  rw [hL] at hkeys
-  simp only [keysOf, Prod.mk.injEq] at hkeys
+    let before := (runH true s0 pre).ngx.api
+    let after := (stepH true (runH true s0 pre) o).1.ngx.api
+    (∀ u ∈ o.conf.http, SetEq (after.http.servers u.name) (heldHttpExpected true u)) ∧
+    (∀ u ∈ o.conf.stream,
+      (u.eps ≠ [] → viaReload (runH true s0 pre).lastErr o = true ∨ u.name ∈ before.stream.keys) →
+      SetEq (after.stream.servers u.name) (heldStreamExpected true u)) := by
+  intro before after
   have hbase := every_quiet_batch_is_in_sync true s0 (fun _ => h0) pre o hc hq
-  refine inSync_iff.mpr ⟨fun u hu => hbase.2.1 u hu ?_, fun u hu => ?_⟩
-  · rw [hkeys.1, mem_dedup]; exact hhttp u hu
-  · by_cases he : u.eps = []
-    · -- no endpoints: NGINX must hold none; either it knows the upstream (then exact) or it holds nothing
+  have hknown := namesKnown_runH pre s0 hk0 hpre
+  by_cases hv : viaReload (runH true s0 pre).lastErr o = true
+  · have hs := inSync_iff.mp (hbase.1 (.inr hv))
+    exact ⟨hs.1, fun u hu _ => hs.2 u hu⟩
+  · have hv' : viaReload (runH true s0 pre).lastErr o = false := by simpa using hv
+    obtain ⟨hkind, hle⟩ := viaReload_false hv'
+    obtain ⟨c0, hc0, hsame⟩ := ho hkind
+    constructor
+    · intro u hu
+      apply hbase.2.1 u hu
+      have hin : u.name ∈ c0.http.map (·.name) := by rw [← hsame]; exact List.mem_map.mpr ⟨u, hu, rfl⟩
+      obtain ⟨u0, hu0, hn0⟩ := List.mem_map.mp hin
+      rw [← hn0]; exact hknown hle c0 hc0 u0 hu0
+    · intro u hu hex
       by_cases hk : u.name ∈ (runH true s0 pre).ngx.api.stream.keys
       · exact hbase.2.2 u hu hk
-      · have hk' : u.name ∉ (stepH true (runH true s0 pre) o).1.ngx.api.stream.keys := by
-          have := keys_applyOp_plus o (runH true s0 pre).ngx
-          by_cases hl : o.loads = true
-          · -- a loading batch: the stream upstream without endpoints is not generated
-            simp only [hl, if_true, keysOf, Prod.mk.injEq] at this
-            show u.name ∉ (applyOp true o (runH true s0 pre).ngx).1.api.stream.keys
-            rw [this.2, mem_dedup]
-            intro hin
-            obtain ⟨u', hu', hn⟩ := List.mem_map.mp hin
-            obtain ⟨hu'm, hne⟩ := List.mem_filter.mp hu'
-            have := unique_of_nodup_names hc.stream hu'm hu hn
-            subst this
-            simp [he] at hne
-          · simp only [hl, Bool.false_eq_true, if_false, Prod.mk.injEq] at this
-            show u.name ∉ (applyOp true o (runH true s0 pre).ngx).1.api.stream.keys
-            rw [this.2]; exact hk
-        have hget : (stepH true (runH true s0 pre) o).1.ngx.api.stream.get u.name = none := by
-          cases hg : (stepH true (runH true s0 pre) o).1.ngx.api.stream.get u.name with
-          | none => rfl
-          | some l =>
-            exact absurd ((Table.get_isSome _ _).mp (by simp [hg])) hk'
-        simp [Table.servers, hget, heldStreamExpected, he, convertEndpoints, SetEq]
-    · apply hbase.2.2 u hu
-      rw [hkeys.2, mem_dedup]
-      obtain ⟨uL, huL, hn, hne⟩ := hstream u hu he
-      refine List.mem_map.mpr ⟨uL, List.mem_filter.mpr ⟨huL, ?_⟩, hn⟩
-      cases h : uL.eps with
-      | nil => exact absurd h hne
-      | cons _ _ => simp
+      · have he : u.eps = [] := by
+          cases h : u.eps with
+          | nil => rfl
+          | cons e t =>
+            rcases hex (by rw [h]; simp) with h1 | h1
+            · rw [hv'] at h1; cases h1
+            · exact absurd h1 hk
+        have hq' : (applyOp true (runH true s0 pre).lastErr o (runH true s0 pre).ngx).2 = false := by
+          simpa [quiet, stepH] using hq
+        have hafter : after = updateUpstreamServers o.conf (runH true s0 pre).ngx.api := by
+          have := applyOp_plus_quiet hq'
+          simp only [apiBeforeUpdate, hv', Bool.false_eq_true, if_false] at this
+          exact this
+        have habs := @endpoints_step_absent o.conf (runH true s0 pre).ngx.api u.name hk
+        have : after.stream.get u.name = none := by rw [hafter]; exact habs
+        simp [Table.servers, this, heldStreamExpected, he, convertEndpoints, SetEq]
 
-/-- **The full-strength Plus statement is FALSE for the current code** (known finding
-`C13:plus_quiet_after_failed_reload`): a ClusterStateChange whose reload fails, then an EndpointSlice event. The
-second batch only talks to the API, which does not know the upstream: no call, no error — the handler reports
-success (and clears `latestReloadResult.Error`) while NGINX holds nothing of the configuration. Under OSS the same
-history is repaired by the second batch (it reloads). -/
-theorem quiet_endpoints_batch_out_of_sync_after_failed_reload :
+/-- the excluded stream region is not empty (`C13:plus_stream_upstream_absent`): a quiet API batch, stream upstream with
+endpoints unknown to NGINX -/
+theorem quiet_batch_stream_upstream_absent_out_of_sync :
+    let cR : Conf := ⟨[], [⟨"ns_svc_443", []⟩]⟩
+    let c : Conf := ⟨[], [⟨"ns_svc_443", [⟨"10.0.1.1", 80, false⟩]⟩]⟩
+    let ops : List HOp := [⟨.cluster, cR, Faults.none⟩, ⟨.endpoints, c, Faults.none⟩]
+    Coherent HState.init ops ∧
+    (traceH true HState.init ops).map (fun r => (quiet r, outOfSyncStream true c r.1.ngx.api)) =
+      [(true, ["ns_svc_443"]), (true, ["ns_svc_443"])] := by
+  intro cR c ops
+  refine ⟨?_, by decide⟩
+  show CoherentStep _ _ ∧ (CoherentStep _ _ ∧ True)
+  exact ⟨fun h => (by cases h), fun _ => ⟨_, rfl, rfl⟩, trivial⟩
+
+/-- **The repaired sequence** (former known finding `C13:plus_quiet_after_failed_reload`, fixed by /repo c94173a): a
+ClusterStateChange whose reload fails, then an EndpointSlice event. The code (`traceH`) sends the second batch through
+the files and a reload: quiet AND in sync, like OSS. The PRE-FIX arm (`traceHPre`: `if h.cfg.plus { updateUpstreamServers
+}`) only talked to the API, which does not know the upstream: no call, no error, `latestReloadResult.Error` cleared,
+NGINX without the upstream — kept as a regression detector. -/
+theorem quiet_endpoints_batch_after_failed_reload :
     let c : Conf := ⟨[⟨"ns_svc_80", [⟨"10.0.0.1", 80, false⟩]⟩], []⟩
     let ops : List HOp := [⟨.cluster, c, ⟨false, true, false, [], []⟩⟩, ⟨.endpoints, c, Faults.none⟩]
     c.WF ∧
     (traceH true HState.init ops).map (fun r => (quiet r, r.1.lastErr, outOfSyncHttp true c r.1.ngx.api)) =
+      [(false, true, ["ns_svc_80"]), (true, false, [])] ∧
+    (traceHPre true HState.init ops).map (fun r => (quiet r, r.1.lastErr, outOfSyncHttp true c r.1.ngx.api)) =
       [(false, true, ["ns_svc_80"]), (true, false, ["ns_svc_80"])] ∧
     (traceH false HState.init ops).map (fun r => (quiet r, r.1.lastErr, outOfSyncHttp false c r.1.ngx.api)) =
       [(false, true, ["ns_svc_80"]), (true, false, [])] := by
-  refine ⟨⟨by decide, by decide⟩, by decide, by decide⟩
+  refine ⟨⟨by decide, by decide⟩, by decide, by decide, by decide⟩
 
 /-! ## 4. Retry: a batch the environment does not disturb repairs whatever earlier failures left -/
 
 /-- **fault_free_batch_is_quiet_and_in_sync.** After ANY history of failures, a batch whose calls all succeed
-records no error and (OSS, Plus/ClusterStateChange: for every upstream; Plus/EndpointsOnlyChange: for every
-upstream NGINX knows) leaves NGINX with the servers of the CURRENT configuration — even when that configuration
-equals the one a failed batch generated before. -/
+records no error and (OSS, Plus/ClusterStateChange, Plus/EndpointsOnlyChange after a remembered failure: for every
+upstream; Plus/EndpointsOnlyChange through the API: for every upstream NGINX knows) leaves NGINX with the servers of the
+CURRENT configuration — even when that configuration equals the one a failed batch generated before. -/
 theorem fault_free_batch_is_quiet_and_in_sync (plus : Bool) (s0 : HState) (h0 : plus = true → s0.ngx.Inv)
     (pre : List HOp) (o : HOp) (hc : o.conf.WF) (hf : o.faults = Faults.none) :
     let before := (runH plus s0 pre).ngx.api
     let r := stepH plus (runH plus s0 pre) o
     quiet r = true ∧ r.1.lastErr = false ∧
-    ((plus = false ∨ o.kind = .cluster) → inSync plus o.conf r.1.ngx.api = true) ∧
+    ((plus = false ∨ viaReload (runH plus s0 pre).lastErr o = true) → inSync plus o.conf r.1.ngx.api = true) ∧
     (∀ u ∈ o.conf.http, u.name ∈ before.http.keys → SetEq (r.1.ngx.api.http.servers u.name) (heldHttpExpected plus u)) ∧
     (∀ u ∈ o.conf.stream, u.name ∈ before.stream.keys →
       SetEq (r.1.ngx.api.stream.servers u.name) (heldStreamExpected plus u)) := by
   intro before r
-  have hq2 : (applyOp plus o (runH plus s0 pre).ngx).2 = false := applyOp_nofaults plus hf _
+  have hq2 : (applyOp plus (runH plus s0 pre).lastErr o (runH plus s0 pre).ngx).2 = false :=
+    applyOp_nofaults plus _ hf _
   have hq : quiet r = true := by
-    simp only [r, quiet, stepH, applyOp_nofaults plus hf, Bool.not_false]
+    simp only [r, quiet, stepH, hq2, Bool.not_false]
   exact ⟨hq, hq2, every_quiet_batch_is_in_sync plus s0 h0 pre o hc hq⟩
 
 /-- **api_failure_is_local** (Plus). A failing `UpdateHTTPServers` / `UpdateStreamServers` call does not keep the OTHER
@@ -289,7 +236,7 @@ configuration that NGINX knows and whose own call the environment did not fail h
 although the batch records an error. (The update loops go on after an error and join the errors.) -/
 theorem api_failure_is_local (s0 : HState) (h0 : s0.ngx.Inv) (pre : List HOp) (o : HOp) (hc : o.conf.WF)
     (hf : o.faults.replace = false ∧ o.faults.reload = false ∧ o.faults.get = false) :
-    let before := apiBeforeUpdate o (runH true s0 pre).ngx
+    let before := apiBeforeUpdate (runH true s0 pre).lastErr o (runH true s0 pre).ngx
     let after := (stepH true (runH true s0 pre) o).1.ngx.api
     (∀ u ∈ o.conf.http, u.name ∉ o.faults.http → u.name ∈ before.http.keys →
       SetEq (after.http.servers u.name) (heldHttpExpected true u)) ∧
@@ -298,21 +245,20 @@ theorem api_failure_is_local (s0 : HState) (h0 : s0.ngx.Inv) (pre : List HOp) (o
   intro before after
   have hinv : (runH true s0 pre).ngx.Inv := inv_runH_plus pre s0 h0
   have hnr : o.faults.noReload = false := by simp [Faults.noReload, hf.1, hf.2.1]
-  cases hk : o.kind with
-  | cluster =>
-    have hafter : after = (updateUpstreamServersF o.faults o.conf
+  by_cases hv : viaReload (runH true s0 pre).lastErr o = true
+  · have hafter : after = (updateUpstreamServersF o.faults o.conf
         { (runH true s0 pre).ngx with api := loadPlus o.conf (runH true s0 pre).ngx.state }).1.api := by
-      show (applyOp true o (runH true s0 pre).ngx).1.api = _
-      rw [applyOp_plus_cluster hk]; simp [hnr]
-    have hb : before = loadPlus o.conf (runH true s0 pre).ngx.state := by simp [before, apiBeforeUpdate, hk]
+      show (applyOp true _ o (runH true s0 pre).ngx).1.api = _
+      rw [applyOp_plus_reload hv]; simp [hnr]
+    have hb : before = loadPlus o.conf (runH true s0 pre).ngx.state := by simp [before, apiBeforeUpdate, hv]
     rw [hafter, hb]
     exact updateF_local (x := { (runH true s0 pre).ngx with api := loadPlus o.conf (runH true s0 pre).ngx.state })
       hc (inv_loadPlus _ hinv.state) hf.2.2
-  | endpoints =>
+  · have hv' : viaReload (runH true s0 pre).lastErr o = false := by simpa using hv
     have hafter : after = (updateUpstreamServersF o.faults o.conf (runH true s0 pre).ngx).1.api := by
-      show (applyOp true o (runH true s0 pre).ngx).1.api = _
-      rw [applyOp_plus_endpoints hk]
-    have hb : before = (runH true s0 pre).ngx.api := by simp [before, apiBeforeUpdate, hk]
+      show (applyOp true _ o (runH true s0 pre).ngx).1.api = _
+      rw [applyOp_plus_api hv']
+    have hb : before = (runH true s0 pre).ngx.api := by simp [before, apiBeforeUpdate, hv']
     rw [hafter, hb]
     exact updateF_local hc hinv.api hf.2.2
 
@@ -370,14 +316,15 @@ example :
     c1.WF ∧ c2.WF ∧
     (traceH true HState.init ops).map (fun r => (quiet r, outOfSyncHttp true c2 r.1.ngx.api, outOfSyncStream true c2 r.1.ngx.api)) =
       [(true, ["u", "v"], ["s"]), (false, ["u"], ["s"]), (false, ["u"], ["s"]), (false, ["u"], ["s"]), (true, [], [])] ∧
-    (lastLoaded ops none).map (fun c => (c.http, c.stream)) = some (c1.http, c1.stream) := by
-  refine ⟨⟨by decide, by decide⟩, ⟨by decide, by decide⟩, by decide, by decide⟩
+    NamesKnown HState.init := by
+  refine ⟨⟨by decide, by decide⟩, ⟨by decide, by decide⟩, by decide, ?_⟩
+  intro _ c hc; cases hc
 
 /-! ## 6. Tie to the source: the two arms, the error recording, the two application functions -/
 
 /-- The `EndpointsOnlyChange` and `ClusterStateChange` arms of `HandleEventBatch` are, statement for statement, what
 `stepH`/`applyOp` transcribe: build, `setLatestConfiguration(&cfg)` BEFORE the application, no comparison with the
-previous configuration, Plus ⇒ `updateUpstreamServers` / else `updateNginxConf`; after the switch the error is
+previous configuration, Plus AND no remembered failure ⇒ `updateUpstreamServers` / else `updateNginxConf`; after the switch the error is
 logged and stored in `latestReloadResult`. (`updateUpstreamServersBody` and `updateNginxConfBody` are pinned in
 `handler_source_as_modelled` of `Props/C13.lean`.) -/
 theorem handler_arms_source_as_modelled :
@@ -388,7 +335,7 @@ theorem handler_arms_source_as_modelled :
        "if getErr != nil { logger.Error(getErr, \"error getting deployment context for usage reporting\") }",
        "cfg.DeploymentContext = depCtx",
        "h.setLatestConfiguration(&cfg)",
-       "if h.cfg.plus { err = h.updateUpstreamServers(cfg) } else { err = h.updateNginxConf(ctx, cfg) }"] ∧
+       "if h.cfg.plus && h.latestReloadResult.Error == nil { err = h.updateUpstreamServers(cfg) } else { err = h.updateNginxConf(ctx, cfg) }"] ∧
     Generated.Resolver.clusterStateArm =
       ["h.version++",
        "cfg := dataplane.BuildConfiguration(ctx, gr, h.cfg.serviceResolver, h.version)",
